@@ -323,5 +323,146 @@ class ShareHashesOrBadShare(Spec):
         return [("canary", z3.BoolVal(not is_failure(out.value)))]
 
 
+class MarkBadShare(Spec):
+    """Retrieve._mark_bad_share(server, shnum, reader, f): exactly the (shnum, server) pair of the failed reader leaves
+    remaining_sharemap; other shares of the same server and the same share number on other servers stay usable"""
+    file = RT
+    qualname = "Retrieve._mark_bad_share"
+    cross_check = 0
+    raises = ()
+    canary_case = {"layout": 0, "bad": 0}
+    LAYOUTS = [
+        [(0, "A"), (3, "A"), (1, "B"), (4, "B")],             # two shares per server
+        [(0, "A"), (0, "B"), (1, "B")],                       # the same share number on two servers
+        [(0, "A"), (1, "B"), (2, "C")],                       # one share per server
+        [(0, "A"), (1, "A"), (2, "A")],                       # everything on one server
+    ]
+
+    def inputs(self):
+        return {"layout": ChoiceK([0, 1, 2, 3]), "bad": ChoiceK([0, 1, 2])}
+
+    def all_cases(self):
+        return [{"layout": li, "bad": b} for li in range(4) for b in range(len(self.LAYOUTS[li])) if b < 3]
+
+    def config(self):
+        o = dict(LOG)
+        o["Retrieve.notify_server_corruption"] = lambda I, a, kw: self._notified.append((a[1], a[2]))
+        return {"overrides": o}
+
+    def run(self, I, a):
+        from allmydata.util.dictutil import DictOfSets
+        self._notified = []
+        layout = self.LAYOUTS[a["layout"]]
+        servers = dict((nm, stub("server" + nm, get_name=(lambda I_, a_, k_, nm=nm: "name" + nm))) for nm in "ABC")
+        rsm = SObj(DictOfSets, {"__dictdata__": {}})
+        readers = []
+        for (sh, nm) in layout:
+            I.call_value(I.get_attr(rsm, "add"), [sh, servers[nm]], {})
+            readers.append(stub("reader%d%s" % (sh, nm), shnum=sh, server=servers[nm]))
+        bad_sh, bad_nm = layout[a["bad"]]
+        self._marked = []
+        smap = stub("servermap", mark_bad_share=lambda I_, a_, k_: self._marked.append((a_[0], a_[1])))
+        status = stub("status", add_problem=noop)
+        r = SObj(self.module().Retrieve, {"remaining_sharemap": rsm, "_active_readers": list(readers), "_bad_shares": set(), "servermap": smap, "_status": status,
+                                          "verinfo": (1, b"r", b"s", 9, 9, 3, 10, b"prefix", ()), "_last_failure": None})
+        from allmydata.mutable.common import CorruptShareError
+        f = failure_stub(CorruptShareError, "server", bad_sh, "block hash tree failure")
+        I.call_value(self.target(I), [r, servers[bad_nm], bad_sh, readers[a["bad"]], f], {})
+        self._servers, self._readers, self._r, self._rsm = servers, readers, r, rsm
+        return r
+
+    def ensures(self, I, a, out):
+        layout = self.LAYOUTS[a["layout"]]
+        bad = layout[a["bad"]]
+        data = self._rsm.fields["__dictdata__"]
+        left = set()
+        for sh, members in data.items():
+            for srv in members:
+                for nm, s_ in self._servers.items():
+                    if s_ is getattr(srv, "v", srv):
+                        left.add((sh, nm))
+        want = set(layout) - {bad}
+        return [("exactly-the-failed-share-leaves-the-remaining-share-map", z3.BoolVal(left == want)),
+                ("the-failed-reader-is-no-longer-active-and-the-others-are", z3.BoolVal(list(self._r.fields["_active_readers"]) == [r_ for i, r_ in enumerate(self._readers) if i != a["bad"]])),
+                ("the-share-is-recorded-bad-in-the-servermap", z3.BoolVal(self._marked == [(self._servers[bad[1]], bad[0])])),
+                ("the-server-is-told-about-the-corrupt-share", z3.BoolVal(self._notified == [(self._servers[bad[1]], bad[0])]))]
+
+
+class DownloadRetry(Spec):
+    """MutableFileNode._download_best_version: when the first attempt (MODE_READ survey) runs out of shares, the one retry
+    surveys in a mode that asks every server -- for a read-only node as well -- and its result is the read's result"""
+    file = "allmydata/mutable/filenode.py"
+    qualname = "MutableFileNode._download_best_version"
+    cross_check = 0
+    raises = ()
+    canary_case = {"readonly": True}
+
+    def inputs(self):
+        return {"readonly": ChoiceK([False, True])}
+
+    def all_cases(self):
+        return [{"readonly": False}, {"readonly": True}]
+
+    def config(self):
+        me = self
+
+        def make_version(I, a, kw):
+            from pyvc.models_tahoe import DStub
+            from allmydata.interfaces import NotEnoughSharesError
+            n = len(me._versions)
+            ro = len(a) < 8
+            dl = (lambda I_, a_, k_: DStub("failed", failure_stub(NotEnoughSharesError, "ran out of servers"))) if n == 0 else (lambda I_, a_, k_: DStub("succeeded", b"contents"))
+            v = stub("version%d" % n, download_to_data=dl, is_readonly=lambda I_, a_, k_: ro, set_downloader_hints=noop, get_size=lambda I_, a_, k_: 8)
+            me._versions.append((v, ro, a[1]))
+            return v
+        return {"overrides": {"log.msg": lambda I, a, kw: 1, "filenode.MutableFileVersion": make_version}}
+
+    def run(self, I, a):
+        from pyvc.models_tahoe import DStub
+        self._versions = []
+        surveys = []
+
+        def get_version(I_, a_, k_):
+            d = DStub("pending")
+            surveys.append((d, a_[0]))
+            return d
+        ro = a["readonly"]
+        node = SObj(self.module().MutableFileNode, {"_secret_holder": "sh", "_writekey": (None if ro else b"w"), "_readkey": b"r", "_storage_index": b"si", "_storage_broker": "sb", "_history": None,
+                                                   "_downloader_hints": {}, "_most_recent_size": None})
+        node.fields["_get_version_from_servermap"] = stub("x", f=get_version).fields["f"]
+        node.fields["is_readonly"] = stub("x", f=lambda I_, a_, k_: ro).fields["f"]
+        d = I.call_value(self.target(I), [node], {})
+
+        def smap(tag):
+            return stub("servermap-" + tag, recoverable_versions=lambda I_, a_, k_: {"verinfo"}, make_versionmap=lambda I_, a_, k_: {"verinfo": set()})
+        maps = [smap("first"), smap("second")]
+        fire_chain(I, surveys[0][0], (maps[0], "verinfo"))
+        during = d.state
+        if len(surveys) == 2:
+            res, _ = fire_chain(I, surveys[1][0], (maps[1], "verinfo"))
+            if d.state == "waiting":
+                fire_chain(I, d, res, start=d._next)
+        out = Outcome("return", d)
+        out.post = {"surveys": surveys, "during": during, "maps": maps}
+        return out
+
+    def ensures(self, I, a, out):
+        from allmydata.mutable.common import MODE_READ, MODE_WRITE, MODE_CHECK, MODE_REPAIR
+        sv, d = out.post["surveys"], out.value
+        return [("the-first-attempt-surveys-in-MODE_READ", z3.BoolVal(len(sv) >= 1 and sv[0][1] == MODE_READ)),
+                ("running-out-of-shares-starts-one-retry", z3.BoolVal(len(sv) == 2 and out.post["during"] in ("waiting", "pending"))),
+                ("the-retry-surveys-in-a-mode-that-asks-every-server", z3.BoolVal(len(sv) == 2 and sv[1][1] in (MODE_WRITE, MODE_CHECK, MODE_REPAIR))),
+                ("the-retry-reads-through-the-new-survey", z3.BoolVal(len(self._versions) == 2 and self._versions[1][2] is out.post["maps"][1])),
+                ("the-read-ends-with-the-retrys-result", z3.BoolVal(d.state == "succeeded" and d.value == b"contents"))]
+
+    def canary(self, I, a, out):
+        return [("canary", z3.BoolVal(len(out.post["surveys"]) == 1))]
+
+
+def extra_checks(rep, tier):
+    from contracts import grid_mutable
+    grid_mutable.grid_check(rep, tier, "C10")
+
+
 def contracts(tier):
-    return [ValidateBlock(), SignatureGate(), PubkeyGate(), PrivkeyGate(), ShareHashesOrBadShare()] + C35.contracts(tier)
+    return [ValidateBlock(), SignatureGate(), PubkeyGate(), PrivkeyGate(), ShareHashesOrBadShare(), MarkBadShare(), DownloadRetry()] + C35.contracts(tier)
